@@ -22,6 +22,9 @@ func (Trace) OnCall(e *sim.Env, c *sim.Call) {
 	case "begin":
 		fmt.Fprintf(w, "[%d] h%d begin t=%d prop=%.8s votes=%v ev=%v ext=%v panic=%q\n", c.Entry.Seq, c.H, c.Entry.Begin.Time, c.Entry.Begin.Proposer, c.Entry.Begin.Votes, c.Entry.Begin.Evidence, c.Entry.Ext, firstLine(c.Panic))
 		fmt.Fprintf(w, "    pre awards=%v burns=%v\n", c.Pre.View.Awards, c.Pre.View.Burns)
+		if cp := sim.ParamsOf(c.Pre.View); true {
+			fmt.Fprintf(w, "    params min=%d window=%d minSigned=%v fracDT=%v fracDS=%v unstaking=%v jail=%v\n", cp.Min, cp.Window, cp.MinSigned, cp.FracDT, cp.FracDS, cp.Unstaking, cp.JailDur)
+		}
 		for _, se := range slashEvents(c.ResBegin.Events) {
 			fmt.Fprintf(w, "    slash %v\n", se)
 		}
